@@ -216,6 +216,55 @@ theorem fq_convertDone (s : St) (st : Started) : FQ s.tags (step s .convertDone 
     refine FQ.sameV (P := MgrReach.PT) ?_ (MgrReach.SameV_foldl _ (fun s p => MgrReach.SameV_cdMark s p) _ _)
     exact FQ.refl _
 
+/-- a helper that keeps the graph view and the key order; the running tagging job may change
+    (`detachConv` may start one through `outputDropped`, so it is no `SameV` any more) -- CHANGED (dropped): new -/
+structure SameW (s s' : St) : Prop where
+  w : WEq s.tags s'.tags
+  sorted : Sorted s.tags → Sorted s'.tags
+
+theorem SameW.refl (s : St) : SameW s s := ⟨MgrReach.WEq.refl _, id⟩
+theorem SameW.trans {a b c : St} (h1 : SameW a b) (h2 : SameW b c) : SameW a c :=
+  ⟨h1.w.trans h2.w, fun h => h2.sorted (h1.sorted h)⟩
+theorem SameW.of_sameV {P} {s s' : St} (h : SameV P s s') : SameW s s' := ⟨h.w, h.sorted⟩
+theorem SameW.of_eq {s s' : St} (h : s'.tags = s.tags) : SameW s s' := ⟨h ▸ MgrReach.WEq.refl _, fun hs => h ▸ hs⟩
+theorem FQ.sameW {L} {s s' : St} (q : FQ L s.tags) (h : SameW s s') : FQ L s'.tags := q.trans h.w.fac
+
+theorem SameW_foldl {β} (f : St → β → St) (hf : ∀ s x, SameW s (f s x)) (l : List β) (s : St) :
+    SameW s (l.foldl f s) := by
+  induction l generalizing s with
+  | nil => exact SameW.refl s
+  | cons a l ih => exact (hf s a).trans (ih _)
+
+theorem W_odF (all : Nat) (t : Tag) : W (odF all t) = W t ∧ (odF all t).defn = t.defn := by
+  unfold odF
+  split <;> exact ⟨rfl, rfl⟩
+
+/-- `outputDropped` keeps all references (CHANGED (dropped): new) -/
+theorem SameW_outputDropped (s : St) (choice : Option String) : SameW s (outputDropped s choice) := by
+  rw [outputDropped_eq]
+  split
+  · refine SameW.trans ?_ (SameW.of_eq (MgrSettle.startTagging_tags _ _))
+    refine SameW.of_sameV (P := MgrReach.PT) ?_
+    refine MgrReach.SameV.trans ?_ (MgrReach.SameV_invDuring _ _)
+    refine MgrReach.SameV.trans (b := { s with tags := s.tags.map fun p => (p.1, odF s.all p.2) }) ?_
+      (MgrReach.SameV_inherit _)
+    exact MgrReach.SameV_map s (fun _ t => odF s.all t) (fun _ t => (W_odF _ t).1) (fun _ t => (W_odF _ t).2) _ rfl rfl
+  · exact SameW.refl _
+
+-- CHANGED (dropped): replaces the use of `MgrReach.SameV_detachConv` (the tagging job may change)
+theorem SameW_detachConv (s : St) (n c : String) (choice : Option String) : SameW s (detachConv s n c choice) := by
+  unfold detachConv
+  split
+  · exact SameW.refl _
+  · next t ht =>
+    have h : SameW s (setTag s n { t with convs := t.convs.filter (· != c) }) :=
+      SameW.of_sameV (MgrReach.SameV_setTag (P := MgrReach.PT) ht rfl rfl)
+    simp only []
+    split
+    · refine SameW.trans (h.trans ?_) (SameW_outputDropped _ _)
+      exact SameW.of_eq rfl
+    · exact h.trans (SameW.of_eq rfl)
+
 theorem fq_updConv (s : St) (name : String) (convs : List String) (st : Started) :
     FQ s.tags (step s (.updConv name convs) st).1.tags := by
   rw [step_updConv_eq]
@@ -226,7 +275,7 @@ theorem fq_updConv (s : St) (name : String) (convs : List String) (st : Started)
     · unfold ucAttach ucDetach
       refine FQ.sameV (P := MgrReach.PT) ?_ (MgrReach.SameV_startConverter _)
       refine FQ.sameV (P := MgrReach.PT) ?_ (MgrReach.SameV_foldl _ (fun s c => MgrReach.SameV_attachConv s name c) _ _)
-      exact FQ.sameV (P := MgrReach.PT) (FQ.refl _) (MgrReach.SameV_foldl _ (fun s c => MgrReach.SameV_detachConv s name c) _ _)
+      exact FQ.sameW (FQ.refl _) (SameW_foldl _ (fun s c => SameW_detachConv s name c st.tag) _ _)
 
 theorem fq_markTail (s : St) (name : String) (a d : List Nat) (st : Started) :
     FQ s.tags (markTail (markUpdate s name a d) st).1.tags := by
@@ -375,20 +424,20 @@ theorem topo_delTag (s : St) (name : String) (st : Started) (hs : Sorted s.tags)
       have he : t.refBy = [] := by simpa using hrbe
       have hno := noref_of_refBy s name t hs hrb hg he
       unfold dtApply
-      have hD : SameV MgrReach.PT s (t.convs.foldl (fun s c => detachConv s name c) s) :=
-        MgrReach.SameV_foldl _ (fun s c => MgrReach.SameV_detachConv s name c) _ _
-      have hq : FQ s.tags (t.convs.foldl (fun s c => detachConv s name c) s).tags := (FQ.refl _).sameV hD
+      have hD : SameW s (t.convs.foldl (fun s c => detachConv s name c st.tag) s) :=
+        SameW_foldl _ (fun s c => SameW_detachConv s name c st.tag) _ _
+      have hq : FQ s.tags (t.convs.foldl (fun s c => detachConv s name c st.tag) s).tags := (FQ.refl _).sameW hD
       have hsD := hD.sorted hs
-      have h1 : Topo (t.convs.foldl (fun s c => detachConv s name c) s).tags := topo_of_fq hs hq ht
-      have h2 : Topo (sdel (t.convs.foldl (fun s c => detachConv s name c) s).tags name) := by
+      have h1 : Topo (t.convs.foldl (fun s c => detachConv s name c st.tag) s).tags := topo_of_fq hs hq ht
+      have h2 : Topo (sdel (t.convs.foldl (fun s c => detachConv s name c st.tag) s).tags name) := by
         apply topo_del hsD name _ h1
         intro n t1 hg1 _ hr
         obtain ⟨t0, hg0, hrefs⟩ := hq.get' hg1
         exact hno n t0 hg0 (hrefs ▸ hr)
       refine topo_of_fq (sorted_sdel _ _ hsD) ?_ h2
       exact FQ.rspec (MgrReach.RSpec_foldDel name t.refs
-        { (t.convs.foldl (fun s c => detachConv s name c) s) with
-          tags := sdel (t.convs.foldl (fun s c => detachConv s name c) s).tags name })
+        { (t.convs.foldl (fun s c => detachConv s name c st.tag) s) with
+          tags := sdel (t.convs.foldl (fun s c => detachConv s name c st.tag) s).tags name })
 
 theorem topo_updName (s : St) (name new : String) (st : Started) (hs : Sorted s.tags)
     (hrb : ∀ nt ∈ s.tags, ∀ r ∈ nt.2.refs, ∀ tr, sget s.tags r = some tr → nt.1 ∈ tr.refBy)
